@@ -255,6 +255,17 @@ def _single_returned_local(body: List[ast.stmt]) -> Optional[str]:
     return nm if stored and len(rets) == 1 and isinstance(body[-1], ast.Return) else None
 
 
+def _is_log_call(e: ast.AST) -> bool:
+    """utils.logger.error(...) / logging.info(...) / print(...): no effect any rule describes"""
+    if not isinstance(e, ast.Call):
+        return False
+    try:
+        d = ast.unparse(e.func)
+    except Exception:
+        return False
+    return d == "print" or ".logger." in d or d.startswith("logger.") or d.startswith("logging.")
+
+
 def _pure_value(fn) -> Optional[ast.AST]:
     """the value of a helper that only computes and returns an expression, as an expression over its parameters"""
     if isinstance(fn, ast.Assign):          # name = lambda ...: expr
@@ -264,7 +275,7 @@ def _pure_value(fn) -> Optional[ast.AST]:
     def run(stmts, env) -> Optional[ast.AST]:
         env = dict(env)
         for i, st in enumerate(stmts):
-            if isinstance(st, ast.Expr) and isinstance(st.value, ast.Constant):
+            if isinstance(st, ast.Expr) and (isinstance(st.value, ast.Constant) or _is_log_call(st.value)):
                 continue
             if isinstance(st, ast.Assign) and len(st.targets) == 1 and isinstance(st.targets[0], ast.Name):
                 env[st.targets[0].id] = _Rename(env).visit(copy.deepcopy(st.value))
